@@ -367,6 +367,54 @@ def content_rules(prog, res):
     res.need(R2, 4)
 
 
+def cdict_reload_coherence(prog, res):
+    """T9: when a digested dictionary's bytes are parsed again (reload layout), bytes, size and content type all come
+    from the CDict; and no attribute the CDict stores about its content is write-only."""
+    R = "T9.cdict-reload-coherence"
+    n = 0
+    for f in prog.fns_in("lib/compress/zstd_compress.c"):
+        for b, i, c in f.calls("ZSTD_compress_insertDictionary"):
+            a = c["a"]
+            if len(a) < 8:
+                continue
+            trio = {"content": f.anchors(a[5], depth=2), "size": f.anchors(a[6], depth=2), "type": f.anchors(a[7], depth=2)}
+            from_cdict = {k: bool({"f:dictContent", "f:dictContentSize", "f:dictContentType"} & v) for k, v in trio.items()}
+            if not from_cdict["type"]:
+                # the digesting function itself: the type handed on is the value it has just stored into the CDict
+                t = strip_casts(f.resolve_x(a[7]))
+                for b2, i2, x in f.events(lambda y: y.get("k") == "asg"):
+                    l = strip_casts(x["lhs"])
+                    r = strip_casts(f.resolve_x(x["rhs"]))
+                    if l.get("k") == "mem" and l.get("f") == "dictContentType" and r is not None and t is not None and r.get("k") == "ref" and t.get("k") == "ref" \
+                            and (r.get("rk"), r.get("n")) == (t.get("rk"), t.get("n")) and f.must_pass(via_roots=[(b2, i2)], targets=[(b, i)]):
+                        from_cdict["type"] = True
+            n += 1
+            ok = len(set(from_cdict.values())) == 1
+            res.check(ok, R, "%s@%s" % (f.name, c.get("l")), "%s:%s" % (f.file, c.get("l")),
+                      "dictionary bytes, size and content type come from the same source (%s)" % ("the CDict" if from_cdict["content"] else "the caller"),
+                      "ZSTD_compress_insertDictionary is given %s from a CDict but %s from elsewhere: the CDict's bytes are re-parsed under a different content type than the one they were digested with"
+                      % (sorted(k for k, v in from_cdict.items() if v), sorted(k for k, v in from_cdict.items() if not v)))
+    res.check(n >= 2, R, "call-sites", "lib/compress/zstd_compress.c", "%d dictionary (re)load sites" % n, "call sites vanished")
+    # every field of ZSTD_CDict_s that is written is also read somewhere
+    written, read = set(), set()
+    for f in prog.fns_in("lib/compress/zstd_compress.c"):
+        for p in reset.written_paths(f, "ZSTD_CDict_s", prog=prog):
+            written.add(p[0])
+        wr_ids = set()
+        for b, i, x in f.events(lambda y: y.get("k") == "asg"):
+            l = strip_casts(x["lhs"])
+            if l.get("k") == "mem" and l.get("rec") == "ZSTD_CDict_s":
+                wr_ids.add(id(l))
+        for b, i, r in f.roots():
+            for y in walk(r):
+                if y.get("k") == "mem" and y.get("rec") == "ZSTD_CDict_s" and id(y) not in wr_ids:
+                    read.add(y["f"])
+    dead = sorted(written - read)
+    res.check(not dead, R, "no-write-only-cdict-field", "lib/compress/zstd_compress.c", "%d CDict fields written, all read somewhere" % len(written),
+              "CDict field(s) %s are stored but never read: an attribute of the digested dictionary is ignored when it is used" % dead)
+    res.need(R, 5)
+
+
 def run(tier):
     res = Result("C08", tier)
     tus, info = extract(["compress", "common", "decompress", "dictBuilder"])
@@ -380,6 +428,7 @@ def run(tier):
     table_completeness(prog, res)
     dict_id(prog, res)
     content_rules(prog, res)
+    cdict_reload_coherence(prog, res)
     return res.finish(
         explanation="Both entropy loaders read the same tables with the same maxima and limits and refuse the same structural "
                     "faults; `valid` repeat modes are only reachable when the table provably covers every required symbol; "
